@@ -775,6 +775,43 @@ def extract_item(src, loc, spec, ed):
     return lo_pos, hi_pos
 
 
+def _extract_expr_closure(src, spec, ed, first, limit):
+    """expression-bodied closure `|params| EXPR`: EXPR (up to the `,` / closing bracket that ends the
+    closure at nesting depth 0) is emitted as the tail expression of a stand-alone fn"""
+    toks = src.toks
+    name = spec["as_fn"]
+    j = first
+    while j < limit:
+        t = toks[j]
+        if t.kind == "punct" and t.text in "([{":
+            j = src.pairs[j] + 1
+            continue
+        if t.kind == "punct" and t.text in (",", ")", "]", "}", ";"):
+            break
+        j += 1
+    last = j - 1
+    if last < first:
+        raise Undecided("lost anchor: empty closure body in %s" % name)
+    for i in range(first, last + 1):
+        if toks[i].kind == "ident" and toks[i].text in ("return", "break", "continue"):
+            raise Undecided("closure body of %s contains `%s`" % (name, toks[i].text))
+        if toks[i].kind == "punct" and toks[i].text == "?":
+            raise Undecided("closure body of %s contains `?`" % name)
+    header = "pub fn %s%s(%s)%s" % (name, spec.get("generics", ""), spec["params"],
+                                    (" -> (%s: %s)" % (spec.get("ret", "out"), spec["ret_type"])) if spec.get("ret_type") else "")
+    contract = spec.get("contract", "").strip()
+    ed.insert(toks[first].pos, header + ("\n    " + contract.replace("\n", "\n    ") + "\n" if contract else "\n")
+              + "{\n" + (spec.get("entry", "") + "\n" if spec.get("entry") else ""), order=-5)
+    ed.insert(toks[last].end, "\n}", order=5)
+    F64_FIELDS[:] = spec.get("f64_fields", [])
+    del SKIP[:]
+    for r in spec.get("rules", ["R3", "R1", "R9", "R12", "R13", "R10"]):
+        RULES[r](src, ed, first, last + 1, name)
+    ed.log.append("BLOCK %s: expression body of closure #%d (header %s) of `%s` emitted as fn %s(%s); the iterator chain it is passed to is not part of this unit" % (
+        name, spec["closure"], spec.get("header_re", ""), spec["path"], name, spec["params"]))
+    return toks[first].pos, toks[last].end
+
+
 def extract_block_as_fn(src, loc, spec, ed):
     """Loop-body / closure-body unit (DESIGN 3.3): emit the *real* text of loop #k's body (or of
     closure #k's body) of a function as a stand-alone fn whose parameters are the free variables,
@@ -811,7 +848,13 @@ def extract_block_as_fn(src, loc, spec, ed):
                             j = src.pairs[j]
                         j += 1
                     j += 1
-                if toks[j].text == "{":
+                if spec.get("expr_closure") and toks[j].text != "{":
+                    hdr = " ".join(src.text[t.pos:toks[j].pos].split())
+                    if not spec.get("header_re") or re.search(spec["header_re"], hdr):
+                        k += 1
+                        if k == spec["closure"]:
+                            return _extract_expr_closure(src, spec, ed, j, close)
+                elif toks[j].text == "{" and not spec.get("expr_closure"):
                     hdr = " ".join(src.text[t.pos:toks[j].pos].split())
                     # ordinal counts block-bodied closures whose parameter list matches header_re
                     if not spec.get("header_re") or re.search(spec["header_re"], hdr):
